@@ -33,9 +33,10 @@ StateOf(st, g, pk) ==
      rl |-> RlOf(st), ps |-> SetOf(st.ps), pr |-> SetOf(st.pr),
      sup |-> [d \in Denoms |-> IF d = "N" THEN st.supN ELSE st.supV],
      ns |-> [c \in Chans |-> IF c = "AB" THEN st.nsAB ELSE st.nsAC], nr |-> st.nr,
-     pk |-> pk, g |-> g]
+     pk |-> pk, wl |-> SetOf(st.wl), bl |-> SetOf(st.bl), g |-> g]
 
-Impl(T) == [now |-> T.now, ep |-> T.ep, rl |-> T.rl, ps |-> T.ps, pr |-> T.pr, sup |-> T.sup, ns |-> T.ns, nr |-> T.nr]
+Impl(T) == [now |-> T.now, ep |-> T.ep, rl |-> T.rl, ps |-> T.ps, pr |-> T.pr, sup |-> T.sup, ns |-> T.ns, nr |-> T.nr,
+            wl |-> T.wl, bl |-> T.bl]
 
 Flows(T) == [p \in Paths |-> <<T.rl[p].on, T.rl[p].inflow, T.rl[p].outflow>>]
 Quotas(T) == [p \in Paths |-> <<T.rl[p].on, T.rl[p].qs, T.rl[p].qr, T.rl[p].dur, T.rl[p].cv>>]
@@ -57,17 +58,19 @@ EpochResets(T, t, nb) ==
 (* decided from the action and the OBSERVED result only.                   *)
 (*  T   state after the begin blockers (its ghost windows already          *)
 (*      restarted where an epoch reset was due)                            *)
+(* A transfer between a whitelisted address pair (the whitelist as logged  *)
+(* BEFORE the step) is accepted but never joins a window.                  *)
 (***************************************************************************)
 GhostStep(T, a, res, ack, pkc) ==
     LET g == T.g  p == PathOfAct(a) IN
     IF res # "ok" THEN g
     ELSE CASE a.a = "Send" ->
-                IF T.rl[p].on THEN [g EXCEPT !.out[p] = @ \cup {Acc(pkc.seq, a.amt)}] ELSE g
+                IF T.rl[p].on /\ ~SendWhitelisted(T, a) THEN [g EXCEPT !.out[p] = @ \cup {Acc(pkc.seq, a.amt)}] ELSE g
            [] a.a = "Recv" ->
-                IF ack = "ok" THEN (IF T.rl[p].on THEN [g EXCEPT !.inn[p] = @ \cup {Acc(pkc.seq, a.amt)}] ELSE g)
+                IF ack = "ok" THEN (IF T.rl[p].on /\ ~RecvWhitelisted(T, a) THEN [g EXCEPT !.inn[p] = @ \cup {Acc(pkc.seq, a.amt)}] ELSE g)
                 ELSE IF ack = "none"
                 THEN LET pf == PathOf(a.d, "AC")
-                         g1 == IF T.rl[p].on THEN [g EXCEPT !.inn[p] = @ \cup {Acc(pkc.seq, a.amt)}] ELSE g
+                         g1 == IF T.rl[p].on /\ ~RecvWhitelisted(T, a) THEN [g EXCEPT !.inn[p] = @ \cup {Acc(pkc.seq, a.amt)}] ELSE g
                      IN IF T.rl[pf].on THEN [g1 EXCEPT !.out[pf] = @ \cup {Acc(pkc.fw, a.amt)}] ELSE g1
                 ELSE g
            [] a.a \in {"Ack", "Timeout"} ->
@@ -114,10 +117,10 @@ Viol(S0, a, res, ack, pkc, post) ==
   \cup { <<"C41", "flows-nonneg">> : x \in IF I_NonNegative(post) THEN {} ELSE {1} }
   \* ---- accepted only within the quota of the channel value recorded at window start -------
   \cup { <<"C41", "send-quota">> : x \in
-           IF a.a = "Send" /\ res = "ok" /\ T.rl[p].on /\ post.rl[p].on
+           IF a.a = "Send" /\ res = "ok" /\ T.rl[p].on /\ post.rl[p].on /\ ~SendWhitelisted(T, a)
               /\ ~G_WithinQuota(netOut(p) + a.amt, post.rl[p].cv, post.rl[p].qs) THEN {1} ELSE {} }
   \cup { <<"C41", "recv-quota">> : x \in
-           IF accepted /\ T.rl[p].on /\ post.rl[p].on
+           IF accepted /\ T.rl[p].on /\ post.rl[p].on /\ ~RecvWhitelisted(T, a)
               /\ ~G_WithinQuota(a.amt - netOut(p), post.rl[p].cv, post.rl[p].qr) THEN {1} ELSE {} }
   \cup { <<"C41", "fwd-quota">> : x \in
            IF accepted /\ ack = "none" /\ T.rl[PathOf(a.d, "AC")].on /\ post.rl[PathOf(a.d, "AC")].on
